@@ -114,7 +114,7 @@ def oracle(scn, tr):
 
 
 def body(scn):
-    tr = harness.run(scn)
+    tr = harness.run(scn, es_thin=scn.get("es_thin"))
     v, evals, nt = oracle(scn, tr)
     labs = harness.run_labels(scn, tr)
     if nt:
@@ -130,10 +130,22 @@ ADV_EXCLUDE = ()
 
 
 def plan(tier):
-    return [("runs", 16), ("logedge", 8), ("advopts", 16)]
+    return [("runs", 16), ("logedge", 8), ("advopts", 16), ("thinned", 16)]
 
 
 def run_part(res, part, tier, seed, shard, nshards):
+    if part == "thinned":
+        # constrained problems with longer evolution strategies (n_search_iter 3-4) whose populations are cut down to zero or a
+        # few survivors in scripted generations: what the constraint function is handed must still be points of the box
+        from hypothesis import strategies as st
+
+        @st.composite
+        def cases(draw):
+            scn = draw(scenario.scenario(dict(PROFILE, p_cons=1.0, cons_x0=("margin",), extra_budget=(15, 60),
+                                              extra_opts=(("n_search_iter", (3, 4, 3), 1.0),))))
+            scn["es_thin"] = draw(st.lists(st.sampled_from([None, None, 0, 0, 1, 3]), min_size=2, max_size=6))
+            return scn
+        return runlevel.sweep(res, None, 64 if tier == "quick" else 1000, seed + 97, shard, nshards, body, strategy=cases())
     if part == "advopts":
         return runlevel.adv_sweep(res, PROFILE, tier, seed, shard, nshards, body, exclude=ADV_EXCLUDE)
     if part == "logedge":
